@@ -480,14 +480,19 @@ func ringCase(rt *rapid.T, mustCross bool) (Case, bool) {
 	return c, true
 }
 
+// genRing draws one case of TestPropRing and hands it to emit (nothing is emitted for a rejected draw).
+func genRing(rt *rapid.T, emit func(c Case, group string)) {
+	c, ok := ringCase(rt, false)
+	if !ok {
+		return
+	}
+	emit(c, "ring")
+}
+
 func TestPropRing(t *testing.T) {
 	assumptions()
-	stats.Check(t, 180000, 4000000, func(rt *rapid.T) {
-		c, ok := ringCase(rt, false)
-		if !ok {
-			return
-		}
-		runCase(rt, "TestPropRing", c, "ring")
+	stats.Check(t, 130000, 2500000, func(rt *rapid.T) {
+		genRing(rt, func(c Case, group string) { runCase(rt, "TestPropRing", c, group) })
 	})
 }
 
@@ -621,99 +626,104 @@ func cutAtBox(r orb.Ring, a, z crossing) orb.Ring {
 	return nil
 }
 
-func TestPropOpen(t *testing.T) {
-	assumptions()
-	stats.Check(t, 80000, 1500000, func(rt *rapid.T) {
-		c, ok := ringCase(rt, true)
-		if !ok {
+// genOpen draws one case of TestPropOpen and hands it to emit (nothing is emitted for a rejected draw).
+func genOpen(rt *rapid.T, emit func(c Case, group string)) {
+	c, ok := ringCase(rt, true)
+	if !ok {
+		return
+	}
+	b := c.Box.Bound()
+	r := c.Geom.V.(orb.Ring)
+	if rapid.IntRange(0, 2).Draw(rt, "cut at the box") == 0 {
+		// the path is cut exactly where the ring crosses the box: it starts at an entry and stops at an exit
+		if an, err := analyse(c); err != nil || an.degen {
+			// the ring itself touches the box degenerately: its crossings are not clean cuts
+			stats.Excluded("degenerate-contact")
+			stats.Class("excluded:degenerate contact (ring to be cut at the box)")
 			return
 		}
-		b := c.Box.Bound()
-		r := c.Geom.V.(orb.Ring)
-		if rapid.IntRange(0, 2).Draw(rt, "cut at the box") == 0 {
-			// the path is cut exactly where the ring crosses the box: it starts at an entry and stops at an exit
-			if an, err := analyse(c); err != nil || an.degen {
-				// the ring itself touches the box degenerately: its crossings are not clean cuts
-				stats.Excluded("degenerate-contact")
-				stats.Class("excluded:degenerate contact (ring to be cut at the box)")
-				return
-			}
-			cr := crossings(b, r)
-			var ents, exits []int
-			for i, x := range cr {
-				if x.entry {
-					ents = append(ents, i)
-				} else {
-					exits = append(exits, i)
-				}
-			}
-			if len(ents) == 0 || len(ents) != len(exits) {
-				stats.Class("rejected:ring has no clean crossings to cut at")
-				return
-			}
-			ia := ents[rapid.IntRange(0, len(ents)-1).Draw(rt, "entry")]
-			// the k-th exit after the entry (k = number of pieces kept)
-			k := rapid.IntRange(1, len(exits)).Draw(rt, "pieces")
-			iz, seen := ia, 0
-			for seen < k {
-				iz = (iz + 1) % len(cr)
-				if !cr[iz].entry {
-					seen++
-				}
-			}
-			path := cutAtBox(r, cr[ia], cr[iz])
-			if path == nil || len(path) < 2 || path[0] == path[len(path)-1] {
-				stats.Class("rejected:degenerate sub-path")
-				return
-			}
-			oc := Case{Kind: "open", Box: c.Box, O: c.O, Geom: gen.G{V: path}, Q: c.Q}
-			if k == len(exits) {
-				stats.Class("open:all pieces kept")
-				oc.Full = &gen.G{V: r}
+		cr := crossings(b, r)
+		var ents, exits []int
+		for i, x := range cr {
+			if x.entry {
+				ents = append(ents, i)
 			} else {
-				stats.Class("open:some pieces dropped")
+				exits = append(exits, i)
 			}
-			runCase(rt, "TestPropOpen", oc, "open-cut")
+		}
+		if len(ents) == 0 || len(ents) != len(exits) {
+			stats.Class("rejected:ring has no clean crossings to cut at")
 			return
 		}
-		scale := 0.0
-		for _, p := range r {
-			scale = math.Max(scale, math.Max(math.Abs(p[0]), math.Abs(p[1])))
+		ia := ents[rapid.IntRange(0, len(ents)-1).Draw(rt, "entry")]
+		// the k-th exit after the entry (k = number of pieces kept)
+		k := rapid.IntRange(1, len(exits)).Draw(rt, "pieces")
+		iz, seen := ia, 0
+		for seen < k {
+			iz = (iz + 1) % len(cr)
+			if !cr[iz].entry {
+				seen++
+			}
 		}
-		_, clear, _ := tolerances(b, scale)
-		cands := cutPositions(b, r, clear)
-		if len(cands) < 2 {
-			stats.Class("rejected:ring cannot be cut outside the box")
-			return
-		}
-		ia := rapid.IntRange(0, len(cands)-1).Draw(rt, "cutA")
-		k := 1
-		if rapid.Bool().Draw(rt, "far") {
-			k = rapid.IntRange(1, len(cands)-1).Draw(rt, "cutK")
-		}
-		a, z := cands[ia], cands[((ia-k)%len(cands)+len(cands))%len(cands)]
-		path := subPath(r, a, z)
+		path := cutAtBox(r, cr[ia], cr[iz])
 		if path == nil || len(path) < 2 || path[0] == path[len(path)-1] {
 			stats.Class("rejected:degenerate sub-path")
 			return
 		}
-		_, fullRuns := pathRuns(b, r)
-		_, subRuns := pathRuns(b, path)
-		if subRuns == 0 && k > 1 {
-			// the far cut dropped every piece: fall back to the short cut that keeps them all
-			if p2 := subPath(r, a, cands[((ia-1)%len(cands)+len(cands))%len(cands)]); len(p2) >= 2 && p2[0] != p2[len(p2)-1] {
-				path = p2
-				_, subRuns = pathRuns(b, path)
-			}
-		}
 		oc := Case{Kind: "open", Box: c.Box, O: c.O, Geom: gen.G{V: path}, Q: c.Q}
-		if fullRuns > 0 && subRuns == fullRuns {
+		if k == len(exits) {
 			stats.Class("open:all pieces kept")
 			oc.Full = &gen.G{V: r}
-		} else if subRuns > 0 {
+		} else {
 			stats.Class("open:some pieces dropped")
 		}
-		runCase(rt, "TestPropOpen", oc, "open")
+		emit(oc, "open-cut")
+		return
+	}
+	scale := 0.0
+	for _, p := range r {
+		scale = math.Max(scale, math.Max(math.Abs(p[0]), math.Abs(p[1])))
+	}
+	_, clear, _ := tolerances(b, scale)
+	cands := cutPositions(b, r, clear)
+	if len(cands) < 2 {
+		stats.Class("rejected:ring cannot be cut outside the box")
+		return
+	}
+	ia := rapid.IntRange(0, len(cands)-1).Draw(rt, "cutA")
+	k := 1
+	if rapid.Bool().Draw(rt, "far") {
+		k = rapid.IntRange(1, len(cands)-1).Draw(rt, "cutK")
+	}
+	a, z := cands[ia], cands[((ia-k)%len(cands)+len(cands))%len(cands)]
+	path := subPath(r, a, z)
+	if path == nil || len(path) < 2 || path[0] == path[len(path)-1] {
+		stats.Class("rejected:degenerate sub-path")
+		return
+	}
+	_, fullRuns := pathRuns(b, r)
+	_, subRuns := pathRuns(b, path)
+	if subRuns == 0 && k > 1 {
+		// the far cut dropped every piece: fall back to the short cut that keeps them all
+		if p2 := subPath(r, a, cands[((ia-1)%len(cands)+len(cands))%len(cands)]); len(p2) >= 2 && p2[0] != p2[len(p2)-1] {
+			path = p2
+			_, subRuns = pathRuns(b, path)
+		}
+	}
+	oc := Case{Kind: "open", Box: c.Box, O: c.O, Geom: gen.G{V: path}, Q: c.Q}
+	if fullRuns > 0 && subRuns == fullRuns {
+		stats.Class("open:all pieces kept")
+		oc.Full = &gen.G{V: r}
+	} else if subRuns > 0 {
+		stats.Class("open:some pieces dropped")
+	}
+	emit(oc, "open")
+}
+
+func TestPropOpen(t *testing.T) {
+	assumptions()
+	stats.Check(t, 70000, 1500000, func(rt *rapid.T) {
+		genOpen(rt, func(c Case, group string) { runCase(rt, "TestPropOpen", c, group) })
 	})
 }
 
@@ -770,39 +780,44 @@ func transformPts(tr transform, ps []orb.Point) []orb.Point {
 	return out
 }
 
+// genPolygon draws one case of TestPropPolygon and hands it to emit (nothing is emitted for a rejected draw).
+func genPolygon(rt *rapid.T, emit func(c Case, group string)) {
+	o := drawO(rt)
+	g := newStream(rt)
+	cx := g.rng("cx", 0, 6)
+	cy := g.rng("cy", 0, 6)
+	rmax := g.rng("rmax", 1, 5)
+	p, aims, _ := polygonAround(g, o, cx, cy, rmax, 1, 3, "p")
+	b := generalBox(g, append(aims, p[0]...), p[0])
+	tr := drawTransform(g, false)
+	if tr.name != "identity" {
+		stats.Class("transformed")
+	}
+	p, b, aims = transformPoly(tr, p), tr.box(b), transformPts(tr, aims)
+	c := Case{Kind: "polygon", Box: gen.FromBound(b), O: o, Geom: gen.G{V: p}}
+	c.Q = drawQueries(g, b, 14, aims)
+	stats.Class(fmt.Sprintf("polygon holes:%d", len(p)-1))
+	holesIn, holesCross := 0, 0
+	for _, h := range p[1:] {
+		if _, runs := pathRuns(b, h); runs > 0 {
+			holesCross++
+		} else if allStrictlyInside(b, h) {
+			holesIn++
+		}
+	}
+	if holesIn > 0 {
+		stats.Class("polygon:a hole stays inside the box")
+	}
+	if holesCross > 0 {
+		stats.Class("polygon:a hole crosses the box boundary")
+	}
+	emit(c, "polygon")
+}
+
 func TestPropPolygon(t *testing.T) {
 	assumptions()
-	stats.Check(t, 80000, 1500000, func(rt *rapid.T) {
-		o := drawO(rt)
-		g := newStream(rt)
-		cx := g.rng("cx", 0, 6)
-		cy := g.rng("cy", 0, 6)
-		rmax := g.rng("rmax", 1, 5)
-		p, aims, _ := polygonAround(g, o, cx, cy, rmax, 1, 3, "p")
-		b := generalBox(g, append(aims, p[0]...), p[0])
-		tr := drawTransform(g, false)
-		if tr.name != "identity" {
-			stats.Class("transformed")
-		}
-		p, b, aims = transformPoly(tr, p), tr.box(b), transformPts(tr, aims)
-		c := Case{Kind: "polygon", Box: gen.FromBound(b), O: o, Geom: gen.G{V: p}}
-		c.Q = drawQueries(g, b, 14, aims)
-		stats.Class(fmt.Sprintf("polygon holes:%d", len(p)-1))
-		holesIn, holesCross := 0, 0
-		for _, h := range p[1:] {
-			if _, runs := pathRuns(b, h); runs > 0 {
-				holesCross++
-			} else if allStrictlyInside(b, h) {
-				holesIn++
-			}
-		}
-		if holesIn > 0 {
-			stats.Class("polygon:a hole stays inside the box")
-		}
-		if holesCross > 0 {
-			stats.Class("polygon:a hole crosses the box boundary")
-		}
-		runCase(rt, "TestPropPolygon", c, "polygon")
+	stats.Check(t, 70000, 1500000, func(rt *rapid.T) {
+		genPolygon(rt, func(c Case, group string) { runCase(rt, "TestPropPolygon", c, group) })
 	})
 }
 
@@ -815,81 +830,86 @@ func allStrictlyInside(b orb.Bound, r orb.Ring) bool {
 	return true
 }
 
+// genMultiPolygon draws one case of TestPropMultiPolygon and hands it to emit (nothing is emitted for a rejected draw).
+func genMultiPolygon(rt *rapid.T, emit func(c Case, group string)) {
+	o := drawO(rt)
+	g := newStream(rt)
+	var mp orb.MultiPolygon
+	var aims []orb.Point
+	layout := rapid.SampledFrom([]string{"halves", "halves-v", "quadrants", "island"}).Draw(rt, "layout")
+	stats.Class("multipolygon layout:" + layout)
+	add := func(cx, cy, rmax float64, label string) {
+		p, a, _ := polygonAround(g, o, cx, cy, rmax, 0, 2, label)
+		mp = append(mp, p)
+		aims = append(aims, a...)
+	}
+	switch layout {
+	case "halves":
+		add(1.5, 3, 1.45, "a")
+		add(4.5, 3, 1.45, "b")
+	case "halves-v":
+		add(3, 1.5, 1.45, "a")
+		add(3, 4.5, 1.45, "b")
+	case "quadrants":
+		cs := [][2]float64{{1.5, 1.5}, {4.5, 1.5}, {4.5, 4.5}, {1.5, 4.5}}
+		use := rapid.IntRange(1, 15).Draw(rt, "quadmask")
+		for k, cc := range cs {
+			if use&(1<<k) != 0 {
+				add(cc[0], cc[1], 1.45, fmt.Sprintf("q%d", k))
+			}
+		}
+	case "island":
+		cx := g.rng("cx", 2, 4)
+		cy := g.rng("cy", 2, 4)
+		var pa orb.Polygon
+		var inner float64
+		for try := 0; ; try++ {
+			var a []orb.Point
+			pa, a, inner = polygonAround(g, o, cx, cy, g.rng("ir", 2, 4), 1, 1, "i")
+			if (inner > 0 && !math.IsInf(inner, 1)) || try >= 3 {
+				aims = append(aims, a...)
+				break
+			}
+		}
+		mp = append(mp, pa)
+		if inner > 0 && !math.IsInf(inner, 1) {
+			isl := starRing(g, cx, cy, 0.3*inner, 0.85*inner, 3, 7, "isl")
+			mp = append(mp, orb.Polygon{finish(isl, o, 0)})
+			stats.Class("multipolygon:island inside a hole")
+		}
+	}
+	// order of the polygons is arbitrary
+	if len(mp) > 1 {
+		perm := rapid.Permutation(intsTo(len(mp))).Draw(rt, "perm")
+		sh := make(orb.MultiPolygon, len(mp))
+		for i, k := range perm {
+			sh[i] = mp[k]
+		}
+		mp = sh
+	}
+	var all []orb.Point
+	for _, p := range mp {
+		all = append(all, p[0]...)
+	}
+	b := generalBox(g, append(append([]orb.Point(nil), aims...), all...), all)
+	tr := drawTransform(g, false)
+	if tr.name != "identity" {
+		stats.Class("transformed")
+	}
+	for i := range mp {
+		mp[i] = transformPoly(tr, mp[i])
+	}
+	b, aims = tr.box(b), transformPts(tr, aims)
+	c := Case{Kind: "multipolygon", Box: gen.FromBound(b), O: o, Geom: gen.G{V: mp}}
+	c.Q = drawQueries(g, b, 14, aims)
+	stats.Class(fmt.Sprintf("multipolygon polygons:%d", len(mp)))
+	emit(c, "multipolygon")
+}
+
 func TestPropMultiPolygon(t *testing.T) {
 	assumptions()
-	stats.Check(t, 80000, 1500000, func(rt *rapid.T) {
-		o := drawO(rt)
-		g := newStream(rt)
-		var mp orb.MultiPolygon
-		var aims []orb.Point
-		layout := rapid.SampledFrom([]string{"halves", "halves-v", "quadrants", "island"}).Draw(rt, "layout")
-		stats.Class("multipolygon layout:" + layout)
-		add := func(cx, cy, rmax float64, label string) {
-			p, a, _ := polygonAround(g, o, cx, cy, rmax, 0, 2, label)
-			mp = append(mp, p)
-			aims = append(aims, a...)
-		}
-		switch layout {
-		case "halves":
-			add(1.5, 3, 1.45, "a")
-			add(4.5, 3, 1.45, "b")
-		case "halves-v":
-			add(3, 1.5, 1.45, "a")
-			add(3, 4.5, 1.45, "b")
-		case "quadrants":
-			cs := [][2]float64{{1.5, 1.5}, {4.5, 1.5}, {4.5, 4.5}, {1.5, 4.5}}
-			use := rapid.IntRange(1, 15).Draw(rt, "quadmask")
-			for k, cc := range cs {
-				if use&(1<<k) != 0 {
-					add(cc[0], cc[1], 1.45, fmt.Sprintf("q%d", k))
-				}
-			}
-		case "island":
-			cx := g.rng("cx", 2, 4)
-			cy := g.rng("cy", 2, 4)
-			var pa orb.Polygon
-			var inner float64
-			for try := 0; ; try++ {
-				var a []orb.Point
-				pa, a, inner = polygonAround(g, o, cx, cy, g.rng("ir", 2, 4), 1, 1, "i")
-				if (inner > 0 && !math.IsInf(inner, 1)) || try >= 3 {
-					aims = append(aims, a...)
-					break
-				}
-			}
-			mp = append(mp, pa)
-			if inner > 0 && !math.IsInf(inner, 1) {
-				isl := starRing(g, cx, cy, 0.3*inner, 0.85*inner, 3, 7, "isl")
-				mp = append(mp, orb.Polygon{finish(isl, o, 0)})
-				stats.Class("multipolygon:island inside a hole")
-			}
-		}
-		// order of the polygons is arbitrary
-		if len(mp) > 1 {
-			perm := rapid.Permutation(intsTo(len(mp))).Draw(rt, "perm")
-			sh := make(orb.MultiPolygon, len(mp))
-			for i, k := range perm {
-				sh[i] = mp[k]
-			}
-			mp = sh
-		}
-		var all []orb.Point
-		for _, p := range mp {
-			all = append(all, p[0]...)
-		}
-		b := generalBox(g, append(append([]orb.Point(nil), aims...), all...), all)
-		tr := drawTransform(g, false)
-		if tr.name != "identity" {
-			stats.Class("transformed")
-		}
-		for i := range mp {
-			mp[i] = transformPoly(tr, mp[i])
-		}
-		b, aims = tr.box(b), transformPts(tr, aims)
-		c := Case{Kind: "multipolygon", Box: gen.FromBound(b), O: o, Geom: gen.G{V: mp}}
-		c.Q = drawQueries(g, b, 14, aims)
-		stats.Class(fmt.Sprintf("multipolygon polygons:%d", len(mp)))
-		runCase(rt, "TestPropMultiPolygon", c, "multipolygon")
+	stats.Check(t, 70000, 1500000, func(rt *rapid.T) {
+		genMultiPolygon(rt, func(c Case, group string) { runCase(rt, "TestPropMultiPolygon", c, group) })
 	})
 }
 
